@@ -114,7 +114,7 @@ def build(tier, seed):
             return eval_ones(case, rng, thorough)
         return eval_e2e(case, rng)
 
-    return dict(cases=cases, evalfn=evalfn, level="exploration", min_nontrivial=300,
+    return dict(cases=cases, evalfn=evalfn, level="exploration", min_nontrivial=250,
                 rule="direct: TCP/UDP x IPv4/IPv6 x payload lengths 0..1500 (odd and even) x checksum field {correct, bit flipped, +1, zero, random} x payloads "
                      "solved so that the unfolded sum equals each of 23 carry/fold boundary targets, and so that the correct checksum is 0x0000 (UDP: sent as 0xFFFF) "
                      "or 0xFFFF-adjacent; e2e: TLS and QUIC scenes with inserted corrupted copies and corrupted real packets, any subset. Class = (mode, protocol, ip "
